@@ -31,6 +31,13 @@ THEOREMS = [
     (NS + "C19_type_errors", "full"),
     (NS + "C19_zero_length_digest_refused", "full"),
     (NS + "C19_field_count", "full"),
+    (NS + "C19_field_removal", "full"),
+    (NS + "C19_truncated", "full"),
+    (NS + "C19_verify_record", "full"),
+    (NS + "C19_b64_invalid_char", "full"),
+    (NS + "C19_b64_ignores_non_alphabet", "full"),
+    (NS + "C19_unrepaired_truncated_witness", "witness"),
+    (NS + "C19_unrepaired_zero_length_witness", "witness"),
 ]
 ASSUMPTIONS = [
     "scrypt and SHA-256 are arbitrary functions in every theorem; that different passwords give different "
@@ -48,6 +55,14 @@ ASSUMPTIONS = [
     "matching digest; non-canonical spellings of a well-formed record (ignored non-alphabet bytes, spare "
     "trailing bits) verify like the canonical string",
 ]
+TRUSTED_EXTRA = [
+    "recording shims: mpgameserver.auth.scrypt / .os are replaced by wrappers around the real Scrypt and the real "
+    "os.urandom; Scrypt.verify is performed in the wrapper as derive + constant_time.bytes_eq + InvalidKey so that "
+    "the derived value can be recorded (cross-checked against the real Scrypt.verify whenever N*r*p <= 4096)",
+    "hashlib.sha256 / hashlib.scrypt and the base64 module as independent oracles of the monitor and of the "
+    "generator (cheap-parameter hashes); CPython's base64/struct/str.encode are modelled by hand and compared "
+    "directly in the AuthLib correspondence layer",
+]
 RULE = ("stateless hash/verify ops on the real Auth with real scrypt: real hash_password outputs (empty/NUL/10kB/"
         "random passwords) and cheap-parameter hashes built with hashlib.scrypt; right, near-identical and wrong "
         "passwords; every truncation position, field removal/emptying/extra fields, every base64 character replaced "
@@ -56,8 +71,16 @@ RULE = ("stateless hash/verify ops on the real Auth with real scrypt: real hash_
         "random base64-ish fields, unicode and surrogates, wrong argument types; non-trivial = a case with at "
         "least one exception and at least one KDF consultation")
 
+RULE_LIB = ("library models against the real functions: b64decode on enumerated padding shapes, every byte value in "
+            "every quad position, mutated encodings and random text; b64encode; str.encode('utf-8') incl. range "
+            "boundaries and surrogates; bytes.split(b':'); struct.unpack('>HBBBB'); Scrypt.__init__ argument checks")
+
 AL = "ABCDEFGHIJKLMNOPQRSTUVWXYZabcdefghijklmnopqrstuvwxyz0123456789+/"
 INVALID = ["!", "-", "_", " ", "\n", "\x00", "é", "€", "*", ".", "\U0001f600", "\t", "~"]
+PAD_SHAPES = ["", "Q", "QQ", "QQ=", "QQ==", "QQ===", "QQ=\n=", "QQ=!=", "QQ=A", "QQ=A=", "QQ=AA", "Q=Q=", "Q=Q==",
+              "=QQ==", "==QQ==", "QUI", "QUI=", "QUI==", "QU=I", "QU=I=", "QU==I", "QUJD", "QUJD=", "QUJD====",
+              "QUJDQQ==QUJD", "QQ==QQ==", "QQ==!", "QQ==:", "====", "=", "Q===", "A=AA", "AA=A", "A=A=A=A=",
+              "QQ= =", "QQ\n==", "Q\nQ==", "QR==", "QUK=", "Q-Q_", "QQ=\u00e9=", "QQ\x00=="]
 DEFAULT = (16384, 16, 1, 16, 24)
 MEM_LIMIT = 128 * 16384 * 16          # what the defaults need; nothing above is generated
 WORK_LIMIT = 16384 * 16 * 4
@@ -73,6 +96,8 @@ def sha256(b):
 
 
 def hexd(b):
+    if b is None:
+        return "none"     # e.g. the code derived but never handed scrypt an expected digest
     return b.hex() or "-"
 
 
@@ -194,6 +219,7 @@ class Impl:
         self.full_derives = 0
         self.cache = {}
         real_scrypt = A.scrypt.Scrypt
+        self.real_scrypt = real_scrypt
         real_urandom = A.os.urandom
         impl = self
 
@@ -511,6 +537,8 @@ class Gen:
         self.ctx.count("tag:" + tag.split("=")[0].rstrip("0123456789"))
         self.ctx.count("out:" + out.split()[0])
         self.ctx.count("kdf:" + ("consulted" if "q=none" not in out else "not-consulted"))
+        if tag in ("b64-random", "b64-padshape", "garbage"):
+            self.ctx.count("%s:%s" % (tag, out.split()[0] + ("+kdf" if "q=none" not in out else "")))
         return out
 
     def hash(self, name, pw, salt=None):
@@ -582,7 +610,7 @@ def generate(ctx, impl):
         g.finish()
 
     # ---- F5: cheap-parameter hashes (built with hashlib.scrypt), the full corruption catalogue each
-    nbase = ctx.scale(6, 120)
+    nbase = ctx.scale(10, 250)
     for i in range(nbase):
         pw = rng.choice(PASSWORDS_FIXED) if i < len(PASSWORDS_FIXED) and i % 2 == 0 else random_password(rng)
         params = cheap_params(rng) if i else (2, 1, 1, 16, 24)
@@ -596,11 +624,11 @@ def generate(ctx, impl):
             g.verify("synth", tag, use, s, "malformed", base=h)
         g.finish()
 
-    # ---- F6: random base64-ish fields; parameters chosen so that the decoded data has the right size
-    for i in range(ctx.scale(1500, 60000)):
-        f3 = b64ish(rng, rng.randint(0, 24))
+    # ---- F6: the decoder's state machine: enumerated padding shapes, mutated encodings, random text;
+    #          parameters chosen so that the decoded data has the right size and shows up in `q=`
+    def b64_case(tag, f3, junk_params=False):
         try:
-            n = len(base64.b64decode(f3.encode()))
+            n = len(base64.b64decode(f3.encode("utf-8", "surrogatepass")))
         except binascii.Error:
             n = None
         if n and rng.random() < 0.9:
@@ -610,16 +638,44 @@ def generate(ctx, impl):
                 ln = max(0, ln + rng.choice([-1, 1]))
         else:
             sl, ln = rng.randint(0, 3), rng.randint(0, 3)
-        pk = b64e(struct.pack(">HBBBB", 2 ** rng.randint(1, 3), 1, 1, sl, ln % 256))
-        if rng.random() < 0.25:      # junk / padding inside the parameter field as well
+        pk = b64e(struct.pack(">HBBBB", 2 ** rng.randint(1, 3), 1, 1, sl % 256, ln % 256))
+        if junk_params:      # junk / padding inside the parameter field as well
             j = rng.randrange(len(pk) + 1)
             pk = pk[:j] + rng.choice(["=", "==", "\n", "!", "A", "="]) + pk[j:]
-        g.verify("b64", "b64-random", random_password(rng) if rng.random() < 0.5 else b"pw",
+        g.verify("b64", tag, random_password(rng) if rng.random() < 0.5 else b"pw",
                  "scrypt:1:%s:%s" % (pk, f3), "malformed")
+
+    for f3 in PAD_SHAPES:
+        b64_case("b64-padshape", f3)
+        b64_case("b64-padshape", f3 + f3)
+        b64_case("b64-padshape", "QUJD" + f3)
+    for i in range(ctx.scale(4000, 120000)):
+        r = rng.random()
+        if r < 0.5:
+            t = list(b64e(rng.randbytes(rng.randint(0, 14))))
+            for _ in range(rng.choice([0, 1, 1, 2, 3])):
+                k = rng.random()
+                j = rng.randrange(len(t) + 1)
+                if k < 0.3:
+                    t.insert(j, rng.choice(INVALID))
+                elif k < 0.5:
+                    t.insert(j, "=")
+                elif k < 0.65 and t:
+                    del t[min(j, len(t) - 1)]
+                elif k < 0.8 and t:
+                    t[min(j, len(t) - 1)] = rng.choice(AL + "=")
+                elif k < 0.9:
+                    t = t[:j]
+                else:
+                    t.append(rng.choice(["=", "==", "A", "AA=", "QQ=="]))
+            f3 = "".join(t)
+        else:
+            f3 = b64ish(rng, rng.choice([0, 2, 3, 4, 4, 7, 8, 8, 11, 12, 12, 16, rng.randint(0, 24)]))
+        b64_case("b64-random", f3, rng.random() < 0.25)
     g.finish()
 
     # ---- F7: garbage, boundary counts of fields
-    for i in range(ctx.scale(300, 6000)):
+    for i in range(ctx.scale(1200, 12000)):
         r = rng.random()
         if r < 0.3:
             s = "".join(rng.choice("scrypt1:=AQ \n") for _ in range(rng.randint(0, 30)))
@@ -637,6 +693,90 @@ def generate(ctx, impl):
     g.finish()
     ctx.notes["skipped_unaffordable"] = g.skipped
     return g, real, fresh
+
+
+# ------------------------------------------------------------------------------ library layer
+
+def lib_impl(line, real_scrypt):
+    """the real library function for a `lib <op> <arg>` line"""
+    _, op, arg = line.split()
+    try:
+        if op == "b64d":
+            return "ok " + hexd(base64.b64decode(b"" if arg == "-" else bytes.fromhex(arg)))
+        if op == "b64e":
+            return "ok " + hexd(base64.b64encode(b"" if arg == "-" else bytes.fromhex(arg)))
+        if op == "utf8":
+            return "ok " + hexd(dec_arg("s:" + arg).encode("utf-8"))
+        if op == "split":
+            return "ok " + "|".join(hexd(f) for f in (b"" if arg == "-" else bytes.fromhex(arg)).split(b":"))
+        if op == "unpack":
+            return "ok %d,%d,%d,%d,%d" % struct.unpack(">HBBBB", b"" if arg == "-" else bytes.fromhex(arg))
+        if op == "sinit":
+            n, r, p = (int(x) for x in arg.split(","))
+            real_scrypt(b"salt", 8, n, r, p)
+            return "ok"
+    except Exception as e:
+        return "err:" + exc_name(e)
+    return "bad-op"
+
+
+def lib_cases(ctx):
+    """base64 / utf-8 / split / struct / Scrypt.__init__ models against the real library"""
+    rng = ctx.rng
+    cases, cur = [], []
+
+    def add(line):
+        cur.append(line)
+        if len(cur) >= 50:
+            flush()
+
+    def flush():
+        if cur:
+            cases.append(["case lib%d" % len(cases)] + cur[:] + ["end"])
+            del cur[:]
+
+    for f in PAD_SHAPES:
+        add("lib b64d " + hexd(f.encode("utf-8")))
+    for n in range(0, 20):
+        add("lib b64e " + hexd(rng.randbytes(n)))
+    for b in range(256):          # every byte value in each quad position of the decoder
+        for pre in ("", "Q", "QU", "QUJ"):
+            add("lib b64d " + hexd(pre.encode() + bytes([b]) + b"QQ=="))
+    for i in range(ctx.scale(6000, 200000)):
+        r = rng.random()
+        if r < 0.35:
+            add("lib b64d " + hexd(b64ish(rng, rng.randint(0, 20)).encode()))
+        elif r < 0.6:
+            t = bytearray(base64.b64encode(rng.randbytes(rng.randint(0, 12))))
+            for _ in range(rng.randint(0, 3)):
+                j = rng.randrange(len(t) + 1)
+                k = rng.random()
+                if k < 0.4:
+                    t.insert(j, rng.choice(b"=\n!-_ \x00\xff:"))
+                elif k < 0.6 and t:
+                    del t[min(j, len(t) - 1)]
+                elif k < 0.8 and t:
+                    t[min(j, len(t) - 1)] = rng.randrange(256)
+                else:
+                    t = t[:j]
+            add("lib b64d " + hexd(bytes(t)))
+        elif r < 0.7:
+            add("lib b64e " + hexd(rng.randbytes(rng.randint(0, 40))))
+        elif r < 0.8:
+            cps = [rng.choice([rng.randrange(0x80), rng.randrange(0x800), rng.randrange(0x10000),
+                               rng.randrange(0x110000), 0x7f, 0x80, 0x7ff, 0x800, 0xd7ff, 0xd800, 0xdfff, 0xe000,
+                               0xffff, 0x10000, 0x10ffff]) for _ in range(rng.randint(0, 6))]
+            add("lib utf8 " + (".".join("%x" % c for c in cps) or "-"))
+        elif r < 0.9:
+            add("lib split " + hexd(bytes(rng.choice(b"::ab=") for _ in range(rng.randint(0, 10)))))
+        elif r < 0.95:
+            add("lib unpack " + hexd(rng.randbytes(rng.choice([0, 1, 5, 6, 6, 6, 7, 12]))))
+        else:
+            n = rng.choice([0, 1, 2, 3, 4, 5, 6, 7, 8, 255, 256, 257, 1023, 1024, 16383, 16384, 16385, 32768, 65535,
+                            rng.randrange(65536)])
+            add("lib sinit %d,%d,%d" % (n, rng.choice([0, 1, 2, 16, 255]), rng.choice([0, 1, 2, 255])))
+    flush()
+    return cases
 
 
 # ------------------------------------------------------------------------------ monitor
@@ -730,6 +870,12 @@ def run(ctx):
                                                               and not o.startswith("err:TypeError") for o in outs)
 
     ctx.correspondence("Auth", "C19", cases, impl.run_case, nontrivial, RULE)
+    real_scrypt = impl.real_scrypt
+    lcases = lib_cases(ctx)
+    ctx.correspondence("AuthLib", "C19", lcases,
+                       lambda case: [lib_impl(l, real_scrypt) for l in case[1:-1]],
+                       lambda case, outs: any(o.startswith("err") for o in outs), RULE_LIB)
+    ctx.notes["lib_op_lines"] = sum(len(c) - 2 for c in lcases)
     monitor(ctx, impl, g, fresh)
     ctx.notes["op_lines"] = sum(len(c) - 2 for c in cases)
     ctx.notes["scrypt_derives"] = impl.derives
